@@ -1373,7 +1373,7 @@ def expand_module(tree: ast.Module, modname: str) -> Tuple[int, List[str]]:
     known = kf.get(modname, set())
     la = lower_expressions(tree, modname) + inline_local_aliases(tree, modname)
     lm = lower_match(tree)
-    ud = la + undo_singledispatch(tree) + undo_decorators(tree, known) + run_init_subclass(tree, known)
+    ud = la + undo_cm_classes(tree, known) + undo_singledispatch(tree) + undo_decorators(tree, known) + run_init_subclass(tree, known)
     nc = propagate_new_constants(tree, modname) + len(lm)
     te = TableEvaluator(tree, modname)
     nt = te.run() + nc
@@ -3462,6 +3462,150 @@ def lower_expressions(tree: ast.Module, modname: str) -> List[str]:
         d.body = block(d.body)
         if notes:
             out.append(f"{d.name}: " + "; ".join(sorted(set(notes))))
+    return out
+
+
+def undo_cm_classes(tree: ast.Module, known: Set[str]) -> List[str]:
+    """A small context-manager class introduced after the rules were written - `__init__` that only stores its parameters /
+    empty containers, `__enter__`, `__exit__` (never suppressing: returns False / None), optionally `__call__` for decorator
+    use - is read as the @contextmanager generator function it replaces:
+        def K(params): <init stores as locals>; <__enter__ body>; try: yield <entered value> finally: <__exit__ body>
+    A per-instance stack (`self._tokens.append(x)` in __enter__, `t = self._tokens.pop()` in __exit__) becomes one local:
+    every entry of a generator-based manager has its own frame, which is what the stack provides.  An `__exit__` that looks
+    at exc_type (only `is None` / `is not None` tests) is split into the exceptional and the normal exit."""
+    out: List[str] = []
+    for idx, c in enumerate(list(tree.body)):
+        if not isinstance(c, ast.ClassDef) or f"{c.name}.__enter__" in known:
+            continue
+        if any(ast.unparse(b).split(".")[-1] not in ("object", "ContextDecorator", "AbstractContextManager") for b in c.bases) or c.keywords or c.decorator_list:
+            continue
+        meths = {m.name: m for m in c.body if isinstance(m, ast.FunctionDef)}
+        other = [m for m in c.body if not isinstance(m, ast.FunctionDef) and not (isinstance(m, ast.Expr) and isinstance(m.value, ast.Constant)) and not isinstance(m, ast.Pass)]
+        if other or "__enter__" not in meths or "__exit__" not in meths or set(meths) - {"__init__", "__enter__", "__exit__", "__call__"}:
+            continue
+        init, ent, ext = meths.get("__init__"), meths["__enter__"], meths["__exit__"]
+        if any(m.decorator_list for m in (ent, ext)) or (init is not None and (init.decorator_list or init.args.vararg or init.args.kwarg)):
+            continue
+        if len(ent.args.args) != 1 or len(ext.args.args) != 4 or ext.args.vararg or ext.args.kwarg:
+            continue
+        attrs: Dict[str, ast.expr] = {}
+        ok = True
+        for st in (init.body if init is not None else []):
+            if isinstance(st, ast.Expr) and isinstance(st.value, ast.Constant):
+                continue
+            tg = st.targets[0] if isinstance(st, ast.Assign) and len(st.targets) == 1 else (st.target if isinstance(st, ast.AnnAssign) and st.value is not None else None)
+            if isinstance(tg, ast.Attribute) and isinstance(tg.value, ast.Name) and tg.value.id == init.args.args[0].arg and tg.attr not in attrs \
+                    and (isinstance(st.value, (ast.Name, ast.Constant)) or (isinstance(st.value, (ast.List, ast.Tuple)) and not st.value.elts)):
+                attrs[tg.attr] = st.value
+            else:
+                ok = False
+        if not ok:
+            continue
+        stacks = {a for a, v in attrs.items() if isinstance(v, ast.List)}
+        et, ev, tb = [a.arg for a in ext.args.args[1:]]
+
+        def convert(body, selfname, is_exit) -> Optional[List[ast.stmt]]:
+            body = [b for b in copy.deepcopy(body) if not (isinstance(b, ast.Expr) and isinstance(b.value, ast.Constant) and isinstance(b.value.value, str))]
+            bad = [False]
+
+            class T(ast.NodeTransformer):
+                def visit_Expr(self, n):
+                    v = n.value
+                    if isinstance(v, ast.Call) and isinstance(v.func, ast.Attribute) and v.func.attr == "append" and isinstance(v.func.value, ast.Attribute) \
+                            and isinstance(v.func.value.value, ast.Name) and v.func.value.value.id == selfname and v.func.value.attr in stacks and len(v.args) == 1 and not is_exit:
+                        return ast.copy_location(ast.Assign(targets=[ast.Name(id=f"{v.func.value.attr}_top", ctx=ast.Store())], value=self.visit(v.args[0])), n)
+                    self.generic_visit(n)
+                    return n
+
+                def visit_Call(self, n):
+                    if isinstance(n.func, ast.Attribute) and n.func.attr == "pop" and not n.args and isinstance(n.func.value, ast.Attribute) and isinstance(n.func.value.value, ast.Name) \
+                            and n.func.value.value.id == selfname and n.func.value.attr in stacks and is_exit:
+                        return ast.copy_location(ast.Name(id=f"{n.func.value.attr}_top", ctx=ast.Load()), n)
+                    self.generic_visit(n)
+                    return n
+
+                def visit_Attribute(self, n):
+                    if isinstance(n.value, ast.Name) and n.value.id == selfname:
+                        if n.attr in attrs and n.attr not in stacks and isinstance(n.ctx, ast.Load):
+                            return ast.copy_location(ast.Name(id=n.attr, ctx=ast.Load()), n)
+                        bad[0] = True
+                        return n
+                    self.generic_visit(n)
+                    return n
+
+                def visit_Name(self, n):
+                    if n.id == selfname:
+                        bad[0] = True
+                    return n
+
+            res = [T().visit(b) for b in body]
+            return None if bad[0] else res
+
+        enter_body = convert(ent.body, ent.args.args[0].arg, False)
+        exit_body = convert(ext.body, ext.args.args[0].arg, True)
+        if enter_body is None or exit_body is None:
+            continue
+        # the entered value: a single trailing `return V` (or none)
+        yielded = None
+        if enter_body and isinstance(enter_body[-1], ast.Return):
+            yielded = enter_body[-1].value
+            enter_body = enter_body[:-1]
+        if any(isinstance(n, ast.Return) for b in enter_body for n in ast.walk(b)):
+            continue
+        # never suppressing
+        rets = [n for b in exit_body for n in ast.walk(b) if isinstance(n, ast.Return)]
+        if any(not (r.value is None or (isinstance(r.value, ast.Constant) and r.value.value in (False, None))) for r in rets):
+            continue
+        if rets and not (len(rets) == 1 and exit_body and exit_body[-1] is rets[0]):
+            continue
+        exit_body = [b for b in exit_body if not isinstance(b, ast.Return)]
+        uses_exc = {n.id for b in exit_body for n in ast.walk(b) if isinstance(n, ast.Name) and n.id in (et, ev, tb)}
+        ystmt = ast.Expr(value=ast.Yield(value=yielded))
+        if not uses_exc:
+            core = [ast.Try(body=[ystmt], handlers=[], orelse=[], finalbody=exit_body or [ast.Pass()])] if exit_body else [ystmt]
+        elif uses_exc == {et}:
+            def with_exc(is_none: bool):
+                class F(ast.NodeTransformer):
+                    def visit_Compare(self, n):
+                        if len(n.ops) == 1 and isinstance(n.left, ast.Name) and n.left.id == et and isinstance(n.comparators[0], ast.Constant) and n.comparators[0].value is None \
+                                and isinstance(n.ops[0], (ast.Is, ast.IsNot)):
+                            return ast.copy_location(ast.Constant(value=is_none if isinstance(n.ops[0], ast.Is) else not is_none), n)
+                        return n
+                b2 = fold_constant_tests([F().visit(copy.deepcopy(b)) for b in exit_body])
+                if any(isinstance(n, ast.Name) and n.id == et for b in b2 for n in ast.walk(b)):
+                    return None
+                return b2
+            exc_side, ok_side = with_exc(False), with_exc(True)
+            if exc_side is None or ok_side is None:
+                continue
+            if not exc_side:
+                core = [ystmt] + ok_side  # nothing to do on the exceptional exit: plain code after the yield
+            else:
+                core = [ast.Try(body=[ystmt], handlers=[ast.ExceptHandler(type=ast.Name(id="BaseException", ctx=ast.Load()), name=None, body=exc_side + [ast.Raise(exc=None, cause=None)])],
+                                orelse=ok_side or [ast.Pass()], finalbody=[])]
+        else:
+            continue
+        pre: List[ast.stmt] = []
+        params = init.args if init is not None else ast.arguments(posonlyargs=[], args=[ast.arg(arg="self")], vararg=None, kwonlyargs=[], kw_defaults=[], kwarg=None, defaults=[])
+        pnames = {a.arg for a in params.args[1:]} | {a.arg for a in params.kwonlyargs}
+        for a, v in attrs.items():
+            if a in stacks:
+                continue
+            if isinstance(v, ast.Name) and v.id == a:
+                continue
+            if a in pnames:
+                ok = False  # an attribute named like a different parameter: would capture
+            pre.append(ast.Assign(targets=[ast.Name(id=a, ctx=ast.Store())], value=copy.deepcopy(v)))
+        if not ok:
+            continue
+        fargs = copy.deepcopy(params)
+        fargs.args = fargs.args[1:]
+        doc = [b for b in c.body[:1] if isinstance(b, ast.Expr) and isinstance(b.value, ast.Constant) and isinstance(b.value.value, str)]
+        fn = ast.FunctionDef(name=c.name, args=fargs, body=doc + pre + enter_body + core, decorator_list=[ast.Name(id="contextmanager", ctx=ast.Load())], returns=None, type_comment=None, type_params=[])
+        ast.copy_location(fn, c)
+        ast.fix_missing_locations(fn)
+        tree.body[tree.body.index(c)] = fn
+        out.append(f"{c.name}: context-manager class read as a @contextmanager generator function")
     return out
 
 
